@@ -92,6 +92,12 @@ def r2(cx, rec):
         got = [s for bb, s in literals(f)]
         rec.site(f, None, '%s writes literals %s' % (name, got))
         rec.need(got == w, 'encoder-literals/' + name, f, None, '%s writes %s, bencode needs %s' % (name, got, w))
+        # every value gets its framing: no return path skips a delimiter (e.g. an early return for an empty container)
+        for bb, lit in literals(f):
+            ok, bad = C.must_pass(f, [bb], f.return_blocks())
+            rec.need(ok, 'encoder-literal-skipped/%s/%s' % (name, lit), f, bb,
+                     '%s can return without writing %r: some value (an empty list, say) is encoded without its framing and the '
+                     'output no longer decodes to it' % (name, lit))
     # decoder map
     dm = [f for f in F.user_fns() if (f.trait or '').endswith('From') and (f.self_ty or '').endswith('Delimiter')]
     M = C.one(dm, 'byte -> Delimiter map')
